@@ -12,7 +12,7 @@ def units_of(prop):
         p = os.path.join(d, n, "unit.toml")
         if os.path.exists(p):
             u = tomllib.load(open(p, "rb"))
-            if prop in u.get("property", []):
+            if prop in u.get("property", []) and u.get("enabled", True):
                 out.append((n, u))
     return out
 
